@@ -13,3 +13,4 @@ CONSTANTS
   InitViaQueue = TRUE
   ClearCache = FALSE
 INVARIANTS TypeOK EventsOnceAndCausal
+ALIAS BehAlias
